@@ -142,6 +142,45 @@ func (c *Ctx) mustFn(rel, name string) *ssa.Function {
 	return f
 }
 
+// fnOrSuccessor: the anchored function, or — when it no longer exists under that name — the one function of the
+// package that is not in the frozen function table (a function introduced since) and refers to every one of
+// the given state fields: a rule subject that was renamed or moved to another receiver is still examined.
+func (c *Ctx) fnOrSuccessor(rel, name string, touches ...*types.Var) *ssa.Function {
+	if f := c.fn(rel, name); f != nil && len(f.Blocks) > 0 {
+		return f
+	}
+	var cands []*ssa.Function
+	for _, f := range c.funcsOf(rel) {
+		if f.Parent() != nil || !c.isNewHelper(f) {
+			continue
+		}
+		seen := map[*types.Var]bool{}
+		for _, b := range f.Blocks {
+			for _, in := range b.Instrs {
+				if fa, ok := in.(*ssa.FieldAddr); ok {
+					if fv := fieldVar(fa.X.Type(), fa.Field); fv != nil {
+						seen[fv.Origin()] = true
+					}
+				}
+			}
+		}
+		all := len(touches) > 0
+		for _, tv := range touches {
+			if tv == nil || !seen[tv.Origin()] {
+				all = false
+			}
+		}
+		if all {
+			cands = append(cands, f)
+		}
+	}
+	if len(cands) == 1 {
+		return cands[0]
+	}
+	c.undecided("anchor", rel+"."+name, 0, "anchored function not found (or has no body) in the current tree")
+	return nil
+}
+
 // field resolves a struct field object "rel/pkg", "T", "f".
 func (c *Ctx) field(rel, typ, name string) *types.Var {
 	p := c.pkg(rel)
